@@ -334,9 +334,14 @@ class Run(Oracles):
             if "num" in spec:
                 kw["num"] = spec["num"]
             if na or spec.get("pass_args"):
-                kw["args"] = rm.args
+                # any iterable of positional arguments / any mapping of keyword arguments
+                kw["args"] = list(rm.args) if spec.get("args_as_list") else rm.args
             if nk != 0 or spec.get("pass_kwargs"):
-                kw["kwargs"] = rm.kwargs
+                if rm.kwargs is not None and spec.get("kwargs_as_mapping"):
+                    from .world import StrMapping
+                    kw["kwargs"] = StrMapping(rm.kwargs)
+                else:
+                    kw["kwargs"] = rm.kwargs
             return pool.apply(func, **kw)
         it = w.make_iter(rm, {"n": spec.get("n", 0), "pull_ops": spec.get("pull_ops"), "as_list": spec.get("as_list"),
                               "raise_at": spec.get("iter_raise_at", -1), "fault_kind": spec.get("fault_kind", 0), "shapes": spec.get("shapes")})
